@@ -5,6 +5,7 @@ Case = {"cell": name, "cancelled": bool, "config": "S"|"E"|"U", "pre": {prefix p
 from __future__ import annotations
 
 import asyncio
+import os
 import math
 
 import anyio
@@ -560,9 +561,51 @@ def run_case(case) -> Outcome:
             call, snap, cleanup, post = await cellfn(pre, tg)
             before = snap()
             done = False
-            if cancelled:
+            if cancelled and how == "above-group":
+                # the call runs in a child task; the cancelled scope lies above the child's task group, whose own
+                # scope is not cancelled and whose host waits behind a shield
+                raised = False
+                res = {}
+                fin = anyio.Event()
+
+                async def child():
+                    try:
+                        for _ in range(pre.get("delivered", 0)):
+                            try:
+                                await asyncio.sleep(0)
+                            except cancelled_exc:
+                                pass
+                        loop.call_soon(lambda: res.__setitem__("mid", snap()))
+                        await call()
+                        res["done"] = True
+                    except cancelled_exc:
+                        res["raised"] = True
+                        raise
+                    finally:
+                        fin.set()
+
+                outer = CancelScope()
+                with outer:
+                    async with create_task_group() as tg2:
+                        outer.cancel()
+                        tg2.start_soon(child)
+                        with CancelScope(shield=True):
+                            await fin.wait()
+                done = bool(res.get("done"))
+                raised = bool(res.get("raised"))
+                if not raised and getattr(call, "demand", lambda: True)():
+                    out.bad("no-cancellation-check", name, f"{case}: completed normally in a child task although a "
+                                                           f"scope above its task group is cancelled")
+                after = snap()
+                if not done and after != before:
+                    out.bad("effect-despite-cancel", name, f"{case}: state {before} -> {after}")
+                if "mid" in res and res["mid"] != before:
+                    out.bad("effect-visible-during-cancelled-call", name, f"{case}: state {before} -> {res['mid']} "
+                                                                          f"while the doomed call was suspended")
+            elif cancelled:
                 raised = False
                 outer = CancelScope()
+                mid = []
                 with outer:
                     if how == "deadline":
                         inner = CancelScope(deadline=anyio.current_time() - 1)
@@ -581,6 +624,7 @@ def run_case(case) -> Outcome:
                                 await asyncio.sleep(0)
                             except cancelled_exc:
                                 pass
+                        loop.call_soon(lambda: mid.append(snap()))
                         try:
                             await call()
                             done = True
@@ -589,6 +633,10 @@ def run_case(case) -> Outcome:
                             raise
                 if not raised and getattr(call, "demand", lambda: True)():
                     out.bad("no-cancellation-check", name, f"{case}: completed normally in a cancelled scope")
+                if mid and mid[0] != before:
+                    # observed from a loop callback while the doomed call was suspended in its checkpoint
+                    out.bad("effect-visible-during-cancelled-call", name, f"{case}: state {before} -> {mid[0]} "
+                                                                          f"while the doomed call was suspended")
                 after = snap()
                 if not done and after != before:
                     out.bad("effect-despite-cancel", name, f"{case}: state {before} -> {after}")
@@ -627,6 +675,8 @@ def enumerate_cases(tier):
                 if name in CANCELLED_ONLY and not cancelled:
                     continue
                 yield {"cell": name, "cancelled": cancelled, "config": config, "pre": {}}
+                if cancelled:
+                    yield {"cell": name, "cancelled": True, "config": config, "pre": {"how": "above-group"}}
 
 
 NAMES = sorted(ALL_CELLS)
@@ -640,7 +690,7 @@ def _gen(g):
            "waiters": g.int(0, 3), "after": g.int(0, 2), "size": g.choice([1, 2, 3, math.inf]), "fill": g.int(0, 3),
            "work": g.int(0, 2), "take": g.int(1, 4), "abandon": g.bool()}
     if cancelled:
-        pre["how"] = g.choice(["own", "parent", "deadline"])
+        pre["how"] = g.choice(["own", "parent", "deadline", "above-group"])
         pre["delivered"] = g.int(0, 3)
     return {"cell": name, "cancelled": cancelled, "config": g.choice(["S", "E", "U"]), "pre": pre}
 
